@@ -13,6 +13,7 @@ real code : the two REAL tuples (return_all vs the tuple assembled from the indi
             compared for every generated particle / state
 """
 import math
+import time
 import copy
 import inspect
 import numpy as np
@@ -64,7 +65,16 @@ def flat(x):
         for y in x:
             out.extend(flat(y))
         return out
-    return [float(v) for v in np.asarray(x, dtype=float).ravel()]
+    return _real(x)
+
+
+def _real(x):
+    """flattened float list; a complex value with a non-zero imaginary part (a negative Morton number raised
+    to a fractional power in pure-Python arithmetic) is no physical answer: it is mapped to NaN"""
+    a = np.asarray(x).ravel()
+    if np.iscomplexobj(a):
+        return [float(v.real) if v.imag == 0. else float('nan') for v in a]
+    return [float(v) for v in a.astype(float)]
 
 
 EOS_KEEP = {'density': 3, 'viscosity': 3, 'fugacity': 3, 'mole_fraction': 1, 'kh_insitu': 3, 'sw_solubility': 2,
@@ -250,6 +260,28 @@ def fluid_masses(fp, yk, st, fp_type):
     return m
 
 
+# minimised past findings, replayed first in every run (DESIGN §2.2): (composition, fp_type, masses, T, P, Sa, Ta, status)
+CORPUS = [
+    # two-phase flash, third component has zero mass: liquid row has a zero ENTRY but a non-zero total
+    (['methane', 'n-decane', 'ethane'], 2, [0.6e-6, 0.4e-6, 0.0], 290., 5e6, 35., 285., -1),
+    # flash returns gas only and the Peng-Robinson cubic has three roots: viscosity rows differ
+    (['hydrogen_sulfide', 'argon'], 2, [9.96240066e-07, 3.75993353e-09], 299.8267317031541, 381642.37438661075, 35., 290., -1),
+    # same particle as the first, no zero-mass component: must agree
+    (['methane', 'n-decane'], 2, [0.6e-6, 0.4e-6], 290., 5e6, 35., 285., -1),
+]
+
+
+def corpus_case(k):
+    from tamoc import dbm
+    comp, fpt, m, T, P, Sa, Ta, status = CORPUS[k]
+    with S.quiet():
+        fp = dbm.FluidParticle(list(comp), fp_type=fpt)
+    descr = dict(kind='fluid', composition=list(comp), fp_type=fpt, yk=None, zero=[j for j, v in enumerate(m) if v == 0.],
+                 delta_mode='zero', delta=None, isair=False, sigma_correction=1., corpus=k)
+    x = dict(m=[float(v) for v in m], T=T, P=P, Sa=Sa, Ta=Ta, status=status)
+    return fp, descr, x, dict(de=float('nan'), band='corpus')
+
+
 def gen_inert(r):
     from tamoc import dbm
     p = dict(isfluid=r.random() < 0.7, iscompressible=r.random() < 0.6, rho_p=r.uniform(600., 1500.),
@@ -293,12 +325,12 @@ def call_inert(ip, method, x):
 
 
 def scal(v):
-    a = np.asarray(v, dtype=float).ravel()
-    return float(a[0]) if a.size == 1 else float('nan')
+    a = _real(v)
+    return a[0] if len(a) == 1 else float('nan')
 
 
 def vec(v):
-    return [float(u) for u in np.asarray(v, dtype=float).ravel()]
+    return _real(v)
 
 
 def norm_out(kind, method, o):
@@ -441,23 +473,40 @@ def cmp_tuples(ra, ind, tol):
 
 def run(ctx, lean_ok):
     r = ctx.rng
-    nfl = ctx.n(110, 2500)
+    nfl = ctx.n(130, 2500)
     nin = ctx.n(60, 1500)
+    slow_budget = ctx.n(2, 40)      # mixed-phase states whose flash takes > 50 ms (stability analysis at its iteration limit)
     cases = []
     lines = []
     owners = []       # (case index, method) per line
     raises = {}
     with LibRecorder() as rec:
-        for i in range(nfl + nin):
-            kind = 'fluid' if i < nfl else 'inert'
+        todo = [('corpus', k) for k in range(len(CORPUS))] + [('fluid', None)] * nfl + [('inert', None)] * nin
+        for i, (kind, ck) in enumerate(todo):
             st = gen_state(r)
-            if kind == 'fluid':
+            if kind == 'corpus':
+                kind = 'fluid'
+                obj, descr, x, st = corpus_case(ck)
+            elif kind == 'fluid':
                 # the first cases sweep fp_type x band so that every regime is present in every run
-                fpt = [0, 1, 2][i % 3] if i < 9 else None
+                fpt = [0, 1, 2][i % 3] if i < 9 + len(CORPUS) else None
                 obj, descr, yk = gen_fluid(r, fpt)
-                if i < 9:
+                if fpt is not None:
                     st['band'] = ['small', 'mid', 'large'][(i // 3) % 3]
                     st['de'] = {'small': lu(r, 50e-6, 300e-6), 'mid': lu(r, 1e-3, 6e-3), 'large': lu(r, 2e-2, 5e-2)}[st['band']]
+                if descr['fp_type'] == 2:
+                    t0 = time.time()
+                    try:
+                        with S.quiet():
+                            obj.equilibrium(np.array(yk * obj.M), st['T'], st['P'])
+                    except Exception:
+                        pass
+                    if time.time() - t0 > 0.05:
+                        if slow_budget <= 0:
+                            ctx.count('mixed-phase state skipped (flash slower than 50 ms)')
+                            continue
+                        slow_budget -= 1
+                        ctx.count('mixed-phase state with a slow flash kept')
                 m = fluid_masses(obj, yk, st, descr['fp_type'])
                 x = dict(m=[float(v) for v in m], T=st['T'], P=st['P'], Sa=st['Sa'], Ta=st['Ta'], status=st['status'])
             else:
@@ -465,6 +514,7 @@ def run(ctx, lean_ok):
                 with S.quiet():
                     m = float(obj.mass_by_diameter(st['de'], st['T'], st['P'], st['Sa'], st['Ta']))
                 x = dict(m=m, T=st['T'], P=st['P'], Sa=st['Sa'], Ta=st['Ta'], status=st['status'])
+            i = len(cases)
             res = run_real(rec, obj, kind, x)
             c = dict(idx=i, kind=kind, descr=descr, x=x, de=st['de'], band=st['band'], res=res)
             cases.append(c)
